@@ -238,10 +238,83 @@ def run(ctx):
                     continue
                 for i in np.where(got.view(np.int64) != base.view(np.int64))[0][:3]:
                     ctx.violation("independent_of_numpy_error_state", {"kind": kind, key: float(xs[i]), "module": mname, "form": form}, base[i], got[i])
+    # the caller's array belongs to the caller, and a batch is its elements: every ordered triple over one altitude per
+    # layer (plus +inf) / one pressure per layer (plus 0) is converted as ONE array that is then re-used - the array must
+    # be left bit for bit as it was, a second conversion of the same object must repeat the first, each lane must equal
+    # the element converted alone, and a column view of a 2-d table must leave its parent untouched
+    for r in _reuse_cases(mods, const, zb, Pb, ctx):
+        ctx.violation(r[0], r[1], r[2], r[3])
     ctx.sample({"z": float(zb[1]), "P": float(A.us_std_atm_pressure_from_altitude(zb[1])), "what": "layer boundary 2"})
     k = int(ctx.rng.integers(len(z)))
     ctx.sample({"z": float(z[k]), "P": float(ref_P[k]), "z_back": float(ref_zr[k])})
     ctx.sample({"p": float(p[len(p) // 3]), "z": float(ref[0][len(p) // 3])})
+
+
+def _layer_reps(zb, Pb):
+    zb = np.asarray(zb, dtype=float)
+    Pb = np.asarray(Pb, dtype=float)
+    zr = sorted(set([0.0] + [float(b) for b in zb] + [float(0.5 * (a + b)) for a, b in zip(zb[:-1], zb[1:])] + [100.0, np.inf]))
+    pr = sorted(set([0.0] + [float(b) for b in Pb] + [float(np.sqrt(a * b)) for a, b in zip(Pb[:-1], Pb[1:]) if a > 0 and b > 0] + [1e-3, 101325.0]))
+    return zr, pr
+
+
+def _reuse_one(mod, fn, vals):
+    """one history on one array object: convert, convert again, compare with the elements alone; returns findings"""
+    f = getattr(mod, fn)
+    out = []
+    a = np.array(vals, dtype=np.float64)
+    keep = a.copy()
+    r1 = np.array(f(a), dtype=np.float64, copy=True)
+    if a.tobytes() != keep.tobytes():
+        out.append(("inputs_unmodified", keep.tolist(), a.tolist()))
+    r2 = np.array(f(a), dtype=np.float64, copy=True)
+    if r1.tobytes() != r2.tobytes():
+        out.append(("repeat_call_same_array", r1.tolist(), r2.tolist()))
+    alone = np.array([np.asarray(f(np.array([v], dtype=np.float64)), dtype=np.float64).reshape(()) for v in vals], dtype=np.float64)
+    if r1.tobytes() != alone.tobytes():
+        out.append(("batch_is_its_elements", alone.tolist(), r1.tolist()))
+    # a column of a table: the parent must be untouched and the column result that of a contiguous copy
+    t = np.empty((len(vals), 2), dtype=np.float64)
+    t[:, 0] = vals
+    t[:, 1] = vals[::-1]
+    tk = t.copy()
+    rc = np.array(f(t[:, 0]), dtype=np.float64, copy=True)
+    if t.tobytes() != tk.tobytes():
+        out.append(("inputs_unmodified", tk[:, 0].tolist(), t[:, 0].tolist()))
+    if rc.tobytes() != alone.tobytes():
+        out.append(("batch_is_its_elements", alone.tolist(), rc.tolist()))
+    # a read-only array is a legal input
+    ro = np.array(vals, dtype=np.float64)
+    ro.setflags(write=False)
+    try:
+        rr = np.array(f(ro), dtype=np.float64, copy=True)
+        if rr.tobytes() != alone.tobytes():
+            out.append(("batch_is_its_elements", alone.tolist(), rr.tolist()))
+    except ValueError as ex:
+        out.append(("inputs_unmodified", "a read-only array is converted", f"ValueError: {str(ex)[:80]}"))
+    return out
+
+
+def _reuse_cases(mods, const, zb, Pb, ctx):
+    import itertools
+
+    zr, pr = _layer_reps(zb, Pb)
+    pr = [v for v in pr if v <= const.std_atm_ground_pressure]
+    found = []
+    for mname, mod in mods.items():
+        for fn, reps, key in (("us_std_atm_pressure_from_altitude", zr, "z"), ("us_std_atm_altitude_from_pressure", pr, "p")):
+            # one value per layer keeps the triples exhaustive over (layer, layer, layer); nodes themselves ride in pairs
+            per_layer = reps[1::2] + [reps[0], reps[-1]]
+            combos = list(itertools.product(per_layer, repeat=3)) + list(itertools.permutations(reps, 2)) + [tuple(reps), tuple(reps[::-1])] + [(v,) for v in reps]
+            seen = set()
+            for vals in combos:
+                ctx.tick(1, ("reuse", mname, key, len(vals), min(len(set(vals)), 3)))
+                for clause, exp, got in _reuse_one(mod, fn, list(vals)):
+                    if (clause, mname, key) in seen:
+                        continue
+                    seen.add((clause, mname, key))
+                    found.append((clause, {"kind": "reuse", "fn": fn, "vals": [float(v) for v in vals], "module": mname}, exp, got))
+    return found
 
 
 def _ends(mod, form):
@@ -294,6 +367,8 @@ def replay(case):
             out.append(("modules_agree", res[0], res[1]))
     elif k == "ends":
         out += _ends(mods[names[0]], case["form"])
+    elif k == "reuse":
+        out += _reuse_one(mods[names[0]], case["fn"], list(case["vals"]))
     elif k in ("zerr", "perr"):
         fn = "us_std_atm_pressure_from_altitude" if k == "zerr" else "us_std_atm_altitude_from_pressure"
         x = case["z"] if k == "zerr" else case["p"]
